@@ -33,9 +33,9 @@ TD = datetime.timedelta
 NOW_VOD = datetime.datetime(2024, 3, 1, 12, 0, 3, 500000, tzinfo=UTC)
 AST = datetime.datetime(2024, 3, 1, 0, 0, 0, tzinfo=UTC)
 
-SEG = {'bbb': 4.0, 'tears': 4.0, 'synirr': 2.5}
-LAST = {'bbb': 36.0, 'tears': 60.0, 'synirr': 9.0}
-TOTAL = {'bbb': 40.0, 'tears': 64.0, 'synirr': 13.0}
+SEG = {'bbb': 4.0, 'tears': 4.0, 'synirr': 2.5, 'synnum': 2.0}
+LAST = {'bbb': 36.0, 'tears': 60.0, 'synirr': 9.0, 'synnum': 8.0}
+TOTAL = {'bbb': 40.0, 'tears': 64.0, 'synirr': 13.0, 'synnum': 10.0}
 
 
 def definitions(tier):
@@ -56,6 +56,11 @@ def definitions(tier):
     for pc in period_choices:
         for ts in tracksets:
             out.append([dict(stream=pc[0], start=pc[1], duration=pc[2], tracks=ts)])
+    # a source whose fragments are not numbered from 1 (synnum: 7..11): $Number$ counts from the Period start all the same
+    for start, dur in ((0.0, 10.0), (2.0, 6.0), (3.0, 4.0)):
+        out.append([dict(stream='synnum', start=start, duration=dur, tracks=[('video', 1), ('audio', 2)])])
+    out.append([dict(stream='synnum', start=4.0, duration=4.0, tracks=[('video', 1), ('audio', 2)]),
+                dict(stream='bbb', start=8.0, duration=8.0, tracks=[('video', 1), ('audio', 2)])])
     # a text track, which has fewer and longer segments than the timing reference of its stream (bbb_t1: 4 x 10 s)
     for start, dur in ((0.0, 40.0), (10.0, 20.0), (4.0, 12.0)):
         out.append([dict(stream='bbb', start=start, duration=dur, tracks=[('video', 1), ('audio', 2), ('text', 4)])])
